@@ -54,6 +54,17 @@ theorem noEmpty_pres : QPres Reasm.NoEmpty := ⟨Reasm.NoEmpty_new, Reasm.step_n
 @[simp] theorem staleFwd_panicked (s : St) : (staleFwd s).panicked = s.panicked := by
   rfl
 
+@[simp] theorem ensureStreams_panicked (ids : List (BitVec 16)) (s : St) : ((ensureStreams s ids).1).panicked = s.panicked := by
+  induction ids generalizing s with
+  | nil => rfl
+  | cons id ids ih =>
+    simp only [ensureStreams]
+    split
+    · exact ih s
+    · split
+      · rw [ih]; simp
+      · simp
+
 @[simp] theorem fwdEntry_panicked (s : St) (e : BitVec 16 × BitVec 16) : (fwdEntry s e).panicked = s.panicked := by
   unfold fwdEntry; dsimp only; repeat' split
   all_goals first | rfl | simp
@@ -64,7 +75,7 @@ theorem noEmpty_pres : QPres Reasm.NoEmpty := ⟨Reasm.NoEmpty_new, Reasm.step_n
   | cons e es ih => simp [ih]
 
 @[simp] theorem handleFwd_panicked (s : St) (c : TSN) (es : List (BitVec 16 × BitVec 16)) : (handleFwd s c es).panicked = s.panicked := by
-  unfold handleFwd; repeat' split
+  unfold handleFwd; dsimp only; repeat' split
   all_goals first | rfl | simp
 
 @[simp] theorem ifwdEntry_panicked (s : St) (e : BitVec 16 × Bool × BitVec 32) : (ifwdEntry s e).panicked = s.panicked := by
@@ -77,7 +88,7 @@ theorem noEmpty_pres : QPres Reasm.NoEmpty := ⟨Reasm.NoEmpty_new, Reasm.step_n
   | cons e es ih => simp [ih]
 
 @[simp] theorem handleIFwd_panicked (s : St) (c : TSN) (es : List (BitVec 16 × Bool × BitVec 32)) : (handleIFwd s c es).panicked = s.panicked := by
-  unfold handleIFwd; repeat' split
+  unfold handleIFwd; dsimp only; repeat' split
   all_goals first | rfl | simp
 
 @[simp] theorem chunksStart_panicked (s : St) : (chunksStart s).panicked = s.panicked := by
